@@ -163,6 +163,109 @@ def depth_guard(rep: C.Report) -> None:
         ob.detail += f"{type(e).__name__}: {e}"
 
 
+def loop_check_order(rep: C.Report) -> None:
+    """Ob6 (E3): the template-loop test runs before the call's arguments are expanded.  detect_expand_template_loop ignores
+    patterns that start with an ARGVAL- frame, so a cycle that closes through an argument is only cut if the called template is
+    already on the path while its arguments expand."""
+    ob = rep.add(C.Ob("Ob6 the template-loop test precedes the expansion of the call's arguments", "E3 AST path encoder + z3", [], "all syntactic paths of one iteration of expand_recurse's cookie loop"))
+    try:
+        tree = ast.parse(open(os.path.join(C.SRC, "core.py")).read())
+        fns = [f for q, f in AP.functions(tree) if q[-1] == "expand_recurse"]
+        if len(fns) != 1:
+            ob.verdict, ob.detail = C.NOT_ENCODABLE, f"expand_recurse found {len(fns)} times"
+            return
+        fn = fns[0]
+        arg_loops = [n for n in ast.walk(fn) if isinstance(n, ast.For) and ast.unparse(n.iter).replace(" ", "").startswith("map(str,args[1:])")]
+        if len(arg_loops) != 1:
+            ob.verdict, ob.detail = C.NOT_ENCODABLE, f"argument loop found {len(arg_loops)} times"
+            return
+        inside = {id(n) for n in ast.walk(arg_loops[0])}
+        ob.functions.append(f"core.py:Wtp.expand.expand_recurse@{fn.lineno} (argument loop @{arg_loops[0].lineno})")
+
+        def delta(n):
+            if isinstance(n, ast.Call) and isinstance(n.func, ast.Name) and n.func.id == "detect_expand_template_loop":
+                return {"lc": 1}
+            return None
+
+        def probe(stmt):
+            if isinstance(stmt, (ast.If, ast.For, ast.While, ast.Try, ast.With)) or id(stmt) not in inside:
+                return None
+            for n in AP._walk_no_defs(stmt):
+                if isinstance(n, ast.Call) and isinstance(n.func, ast.Name) and n.func.id == "expand_recurse":
+                    return "argument expansion"
+            return None
+
+        enc = AP.Encoder(fn, ["lc"], delta, probe=probe).run()
+        if not enc.probes:
+            ob.verdict, ob.detail = C.NOT_ENCODABLE, "no expand_recurse call inside the argument loop"
+            return
+        bad = []
+        for pr in enc.probes:
+            s = z3.Solver()
+            s.add(pr.guard, pr.counters["lc"] == 0)
+            r = str(s.check())
+            ob.queries += 1
+            ob.paths += 1
+            ob.conditions += 1
+            if r == "unsat":
+                ob.confirmed_conditions += 1
+                ob.samples.append({"probe": f"{pr.label} at core.py:{pr.line}", "query": "reachable with the loop test not yet executed", "result": "unsat"})
+            else:
+                bad.append(pr.line)
+        if not bad:
+            ob.verdict = C.DISCHARGED
+            return
+        sig, reproduced, what = replay_arg_cycle()
+        ob.samples.append({"argument_expansion_before_loop_test_at": bad, "replayed": reproduced})
+        if reproduced:
+            v = rep.violation(sig, what, {"kind": "arg-cycle"})
+            ob.verdict = C.VIOLATED if v.known is None else C.KNOWN
+        else:
+            ob.detail = f"arguments are expanded before the loop test on path(s) through line(s) {bad}, but the argument-cycle replay is still cut by the loop detector -> inconclusive"
+    except Exception as e:  # noqa: BLE001
+        ob.detail += f"{type(e).__name__}: {e}"
+
+
+def replay_arg_cycle():
+    """A cycle that closes through an argument must be reported as a template loop (not only by the depth limit)
+    and in bounded time."""
+    import signal
+    from vf.wtpfix import new_ctx, close
+
+    ctx = new_ctx(templates={"wrap": "{{{1}}}", "lin": "{{wrap|{{lin}}}}", "pair": "{{wrap|{{pair}}{{pair}}}}"})
+
+    class Timeout(Exception):
+        pass
+
+    def onalarm(signum, frame):
+        raise Timeout()
+
+    out = None
+    old = signal.signal(signal.SIGALRM, onalarm)
+    try:
+        for doc in ("{{lin}}", "{{pair}}"):
+            ctx.start_page("T")
+            signal.alarm(20)
+            try:
+                r = ctx.expand(doc)
+                signal.alarm(0)
+                if "Template loop detected" not in r:
+                    out = (f"expand({doc!r}) with Template:wrap = '{{{{{{1}}}}}}' and Template:{doc[2:-2]} calling itself inside wrap's argument", True, f"the cycle is not reported as a template loop; result starts {r[:80]!r}")
+                    break
+            except Timeout:
+                out = (f"expand({doc!r}) with a template calling itself inside another template's argument", True, "expand() does not return within 20 s")
+                break
+            except Exception as e:  # noqa: BLE001
+                signal.alarm(0)
+                out = (f"expand({doc!r})", True, f"raises {type(e).__name__}: {e}")
+                break
+    finally:
+        signal.alarm(0)
+        signal.signal(signal.SIGALRM, old)
+        close(ctx)
+    return out or ("expand('{{lin}}') / expand('{{pair}}')", False, "")
+
+
 def replay_deep_chain(depth: int = 400):
     """A chain of `depth` distinct templates (no cycle) under several option sets: every run must return a string
     containing the in-band 'too deep recursion' element."""
@@ -509,6 +612,7 @@ def run(rep: C.Report) -> None:
     expr_totality(rep, quick)
     namespace_index(rep)
     depth_guard(rep)
+    loop_check_order(rep)
     xh.check_harness(
         rep,
         HL,
